@@ -55,7 +55,7 @@ def gterm(rng, d):
 def big_term(rng):
     """large terms: long lists, wide compounds, deep nesting (sizes around 16/32/64 where fast paths switch)"""
     k = rng.choice(['list', 'wide', 'deep'])
-    n = rng.choice([15, 16, 17, 31, 32, 33, 40, 64, 65])
+    n = rng.choice([15, 16, 17, 31, 32, 33, 40, 64, 65, 100, 128, 129, 200, 256, 257, 300])
     leaf = lambda: rng.choice([A('a'), A('b'), I(1), rng.choice(POOL)])
     if k == 'list':
         return L([leaf() for _ in range(n)], rng.choice([NIL, NIL, rng.choice(POOL)]))
